@@ -145,9 +145,16 @@ def run(ctx):
         "conjunct applies to send_join only",
         "the auth-rule conjunct of make_join / make_leave and the federation-response checks use a compact oracle for a "
         "user's own join / leave (DESIGN.md 5.1 A1, A5, A7, A14 included); join rules a room version does not know are not generated",
-        "user IDs serve as sender IDs; pseudo-ID rooms only in the inv3 family: HandleInviteV3 with a well-formed invite "
-        "template (version, room, membership and stripped-state classes; its result must be the template completed for and "
-        "signed with the invited user's room key)",
+        "pseudo-ID rooms (org.matrix.msc4014): make_join / make_leave run against a room state built with per-room keys "
+        "and signed mxid_mappings, send_join through the family sj_pseudo (mapping ok / missing / unsigned / signed with the "
+        "wrong key / signed only by another server: 'the sender belongs to the requesting server, which that server has validly "
+        "signed' is read as: by a mapping that server signed), HandleInviteV3 through inv3; PerformJoin / PerformInvite end to end "
+        "are driven for the 15 room versions whose sender IDs are user IDs; join_authorised_via_users_server is not used in "
+        "pseudo-ID send_joins (the library has no pseudo-ID reading of it)",
+        "a failing verifier, membership querier or room querier leaves a conjunct unestablished: the request must be refused "
+        "(membership querier: only where the conjunct needs it - a known room for invites); HandleMakeJoin's user-ID querier and "
+        "the invite handler's state querier are always answering",
+        "every handler call of the guard products is made twice with the very same input objects: both calls must give the same class",
         "invite: a room the local server does not know has no membership for the invited user; the stripped state either "
         "comes with the request (create + join rules) or is taken from a state querier that knows those events; no conjunct "
         "depends on which",
@@ -157,6 +164,10 @@ def run(ctx):
         "event's timestamp); PerformJoin dates its event with the real clock, more than a day inside the validity",
     ]
     ctx.exhaustive = True
+    ctx.notes["hardening"] = ("per-version families mjv/mlv/sjv/invv/inv3 and one-forgery end-to-end runs over all 16 resp. 15 registered "
+                              "room versions in the quick tier; empty vs absent lists; key-validity boundaries; several signatures; "
+                              "retries; near-coincident server names; content without effect; failing queriers and key ring; "
+                              "PerformInvite wired to HandleInvite")
     ctx.notes["rule"] = (
         "guard products: every scenario of the Handshake_gen families %s within the cfg bounds (each parameter 2-6 classes, all "
         "combinations per family, room versions %s); end-to-end: every behaviour of Handshake!Spec with at most 2 Forge actions%s; "
